@@ -117,7 +117,7 @@ def rconsts(*, nt=2, ops=((), (), ()), maxops=3, total=2, mbs=(1, 2), sizes=(1, 
 
 
 RAW = {
-    "quick": [("raw", rconsts(ops=((R, SN), (R, SN, CL)), maxops=3), "inv")],
+    "quick": [("raw", rconsts(ops=((R, SN), (R, CL)), maxops=3, env=("data", "peof", "drain", "reset")), "inv")],
     "thorough": [("raw", rconsts(nt=3, ops=((R, SN), (R, SN), (CL, EO)), maxops=3, total=3), "inv"),
                  ("raw-4ops", rconsts(ops=((R, SN), (R, SN, CL, EO)), maxops=4, total=3), "inv"),
                  ("raw-live", rconsts(ops=((R, SN), (R, SN, CL)), maxops=3), "live")],
